@@ -64,7 +64,7 @@ func oddSegment(p string) bool {
 func c13(args []string) {
 	c := chk.New("C13", "exploration", args)
 	c.Build(false)
-	c.Rule("(every fifth plain case carries an extension spec on the out-port placeholder, {o:out|.dat}, beside its SetOut pattern; a family of cases has a tagging component in front so that the input carries three tags) one-task workflows, one child per case, each in a fresh directory three levels below its scratch root: the output path and the input path are drawn from the grammar prefix {'', ./, ../, ../../, ABS/} x 0-2 directory segments {d, d.x, a-b_c, 0, ..., d.., ..d, __parent__, __fsroot__, x__parent__y, .hid} x file names {f, f.txt, .h, f..g, __parent__, a__fsroot__b, ..x} (thorough: every grammar path as output and as input; quick: a sample) plus random long paths, input paths that leave a symlinked directory with '..' (a decoy file sits at the lexically cleaned path) additional files that are symbolic links, inputs that reach the command through a joined in-port (absolute / parent-relative members), processes that have a streaming out-port beside the judged file output, and a dangling symbolic link already sitting at the declared output path; destination directories of ../ and absolute outputs are pre-created, sub-directories of the working directory are not; one case in five is a Go function interpreting the same protocol in-process, a further set are Go functions that write through the documented OutIP(port).Write() API; half of the command cases create additional files (one in a not yet existing sub-directory, one sorting after it); oracle: after exit 0 the unique content written at the output placeholder is found at exactly clean(wd/P) (or P if absolute) and nowhere else below the scratch root, the command could read its input through the input placeholder, every additional file is at the same relative place under the working directory. distinct_nontrivial = distinct (output path, input path, extras, command/Go function) cases that ran to completion")
+	c.Rule("[additional files whose destination exists: two consecutive tasks creating a side file of the same name, and a second run over a stale side file - the file of the latest task is the one that stays] (every fifth plain case carries an extension spec on the out-port placeholder, {o:out|.dat}, beside its SetOut pattern; a family of cases has a tagging component in front so that the input carries three tags) one-task workflows, one child per case, each in a fresh directory three levels below its scratch root: the output path and the input path are drawn from the grammar prefix {'', ./, ../, ../../, ABS/} x 0-2 directory segments {d, d.x, a-b_c, 0, ..., d.., ..d, __parent__, __fsroot__, x__parent__y, .hid} x file names {f, f.txt, .h, f..g, __parent__, a__fsroot__b, ..x} (thorough: every grammar path as output and as input; quick: a sample) plus random long paths, input paths that leave a symlinked directory with '..' (a decoy file sits at the lexically cleaned path) additional files that are symbolic links, inputs that reach the command through a joined in-port (absolute / parent-relative members), processes that have a streaming out-port beside the judged file output, and a dangling symbolic link already sitting at the declared output path; destination directories of ../ and absolute outputs are pre-created, sub-directories of the working directory are not; one case in five is a Go function interpreting the same protocol in-process, a further set are Go functions that write through the documented OutIP(port).Write() API; half of the command cases create additional files (one in a not yet existing sub-directory, one sorting after it); oracle: after exit 0 the unique content written at the output placeholder is found at exactly clean(wd/P) (or P if absolute) and nowhere else below the scratch root, the command could read its input through the input placeholder, every additional file is at the same relative place under the working directory. distinct_nontrivial = distinct (output path, input path, extras, command/Go function) cases that ran to completion")
 	c.Assume("scratch root, working directory and absolute area are on one file system", "paths with a directory segment ending in '..' (fixed defect 133a9ef: '../' was matched as a substring) carry their own signature suffix so that a regression there is told apart from other failures")
 	rng := c.Rand("c13")
 	g := c13Grammar()
@@ -299,5 +299,60 @@ func c13(args []string) {
 			c.Sample(map[string]interface{}{"output_path": pc.out, "input_path": pc.in, "found_at": exp, "additional_files": extras, "gofunc": pc.gof})
 		}
 	})
+	c13sharedExtras(c)
 	c.Finish()
+}
+
+// c13sharedExtras: two consecutive tasks create an additional file of the same name (a log, a checksum): after the
+// run the file at that relative location under the working directory is the one the later task wrote; and the history
+// 'run, remove the declared outputs, run again with another input': the additional files are those of the second run.
+func c13sharedExtras(c *chk.Ctx) {
+	run.Parallel(c.Pick(4, 12), func(i int) {
+		root := c.CaseDir()
+		defer c.Drop(root)
+		in, o1 := []spec.PortDecl{{Name: "in"}}, []spec.PortDecl{{Name: "out"}}
+		extra := []string{"side.log", "checks/input.md5", "a/b/last_step.txt"}[i%3]
+		mk := func(content string) *spec.Spec {
+			s := &spec.Spec{Name: "sharedextra", MaxTasks: 2, Sources: map[string]string{"in.txt": content}}
+			s.Procs = append(s.Procs, &spec.Proc{Name: "src", Kind: spec.KFileSource, Files: []string{"in.txt"}},
+				&spec.Proc{Name: "P", Kind: []string{spec.KCmd, spec.KGoFunc}[i%2], Cmd: spec.BuildCmd("P", in, o1, nil, nil, map[string]string{"extra": extra}), Outs: []*spec.Out{{Port: "out", Pattern: "res/p.out"}}},
+				&spec.Proc{Name: "Q", Kind: spec.KCmd, Cmd: spec.BuildCmd("Q", in, o1, nil, nil, map[string]string{"extra": extra}), Outs: []*spec.Out{{Port: "out", Pattern: "res/q.out"}}})
+			s.Conns = append(s.Conns, &spec.Conn{From: "src.out", To: "P.in"}, &spec.Conn{From: "P.out", To: "Q.in"})
+			return s
+		}
+		s := mk("first input\n")
+		desc := map[string]interface{}{"additional_file": extra, "spec": s}
+		res := execSpec(c, root, s, Cfg{Buf: 3, Procs: 2}, nil, false, 0)
+		if res.Hang != "" {
+			c.Inconclusive(res.Hang)
+			return
+		}
+		if res.Exit != 0 || !res.Returned {
+			c.Violation("valid-path-fails", fmt.Sprintf("two tasks with an additional file of the same name: exit %d: %s", res.Exit, tail(res.Output(), 400)), desc)
+			return
+		}
+		b, err := os.ReadFile(filepath.Join(res.Wd, extra))
+		if err != nil || string(b) != string(vproto.ExtraContent("Q", extra)) {
+			c.Violation("file-not-at-declared-path", fmt.Sprintf("additional file %s created by P and then by Q: after the run it holds %q, the later task wrote %q (%v)", extra, clip(string(b), 60), clip(string(vproto.ExtraContent("Q", extra)), 60), err), desc)
+			return
+		}
+		// history: the additional file of the first run is replaced by a marker (what an outdated result looks like), the
+		// declared outputs are removed, the workflow runs again
+		os.WriteFile(filepath.Join(res.Wd, extra), []byte("stale content from an earlier run\n"), 0644)
+		os.Remove(filepath.Join(res.Wd, "res/p.out"))
+		os.Remove(filepath.Join(res.Wd, "res/q.out"))
+		r2 := execSpec(c, root, s, Cfg{Buf: 3, Procs: 2}, nil, true, 1)
+		if r2.Hang != "" {
+			c.Inconclusive(r2.Hang)
+			return
+		}
+		b2, err2 := os.ReadFile(filepath.Join(r2.Wd, extra))
+		if r2.Exit != 0 || err2 != nil || string(b2) != string(vproto.ExtraContent("Q", extra)) {
+			desc["history"] = "run; the additional file replaced by other content, the declared outputs removed; run again"
+			c.Violation("file-not-at-declared-path", fmt.Sprintf("second run (exit %d): additional file %s holds %q, the tasks of this run wrote %q", r2.Exit, extra, clip(string(b2), 60), clip(string(vproto.ExtraContent("Q", extra)), 60)), desc)
+			return
+		}
+		c.Count("cases_with_additional_files", 1)
+		c.Nontrivial(fmt.Sprintf("sharedextra|%s|%d", extra, i%2))
+	})
 }
